@@ -1,6 +1,7 @@
 package platlat
 
 import (
+	"github.com/sarchlab/mgpusim/v4/amd/benchmarks/dnn/training_benchmarks/xor"
 	"fmt"
 	"math"
 	"sort"
@@ -61,7 +62,22 @@ func def(p map[string]int, k string, d int) int {
 	return d
 }
 
+// noVerify wraps a workload whose Verify() is not implemented but whose operators verify themselves against the
+// CPU operators while it runs (GPUOperator.EnableVerification): a mismatch panics in Run().
+type noVerify struct{ benchmarks.Benchmark }
+
+func (noVerify) Verify() {}
+
 var registry = []*Workload{
+	{
+		Name: "xor", Outputs: nil, Tol: 1e-2,
+		New: func(d *driver.Driver, a arch.Type, p map[string]int) benchmarks.Benchmark { return noVerify{xor.NewBenchmark(d)} },
+		Cost: func(p map[string]int) float64 { return 10 },
+	},
+	{
+		Name: "synthetic-copy-overlaps-kernel", Outputs: []string{"out1", "out2"}, Integer: true,
+		New: func(d *driver.Driver, a arch.Type, p map[string]int) benchmarks.Benchmark { return newCopyOverlapsKernel(d, p) },
+	},
 	{
 		Name: "synthetic-load-store-vmcnt1", Outputs: []string{"out", "out2"}, Integer: true,
 		New: func(d *driver.Driver, a arch.Type, p map[string]int) benchmarks.Benchmark { return newLoadStoreVmcnt1(d, p) },
